@@ -28,8 +28,14 @@ POINTS = list(itertools.product([True, None, False], ["absent", "valid", "corrup
                                 [None, ["rs"], ["rsx"]], [True, False]))
 ERRS = ["no_cfg", "bad_yaml", "no_source_dir_key", "src_missing", "src_is_file", "no_files", "cfg_is_dir"]
 NPOINT = len(POINTS) + len(ERRS) * 2
+# every entry fails to parse as the lock structure (verified against the tool: invalid YAML, wrong type, duplicate or missing
+# key); several still contain a line that *looks* like a valid entry
 CORRUPT = [b"next_reference_id: banana\n", b"{{{{ not yaml", b"next_reference_id: -4\n", b"\xff\xfe\x00garbage",
-           b"next_reference_id: 99999999999\n", b"other_key: 3\n", b"- 1\n- 2\n"]
+           b"next_reference_id: 99999999999\n", b"other_key: 3\n", b"- 1\n- 2\n",
+           b"<<<<<<< HEAD\nnext_reference_id: 12\n=======\nnext_reference_id: 13\n>>>>>>> other\n",
+           b"garbage {{{\nnext_reference_id: 12\n", b"next_reference_id: 12\nnext_reference_id: 13\n",
+           b"next_reference_id: 12 trailing words\n", b"next_reference_id: \"12\"\n", b"next_reference_id: 12.0\n",
+           b"NEXT_REFERENCE_ID: 12\n", b"# next_reference_id: 12\n", b"next_reference_id:\n", b"next_reference_id: ~\n"]
 
 
 def n_cases(tier):
@@ -50,6 +56,7 @@ def build_world(rng, use_cache, lockstate, structured, exts):
         files["proj/src/" + name] = g.source_file(bool(structured), ns, "tiny", planted, shapes=["bare", "fmt", "qual"])
     # make sure each file has at least one missing
     cfg = {"source_dir": "./src", "use_cache": use_cache, "structured": structured, "extensions": exts}
+    world.add_extra_keys(rng, cfg, 0.3)
     wm = {"cfg": cfg, "files": files, "extra": {}, "lock": None, "nmark": g.n}
     if lockstate == "valid":
         wm["lock"] = core.lock_text(rng.randrange(5000, 9000))
